@@ -258,7 +258,19 @@ class CommentStyle:
         lines = text.splitlines()
         end: Optional[int] = None
 
-        if cls.can_handle_single():
+        starts_multi = cls.can_handle_multi() and text.startswith(
+            cls.MULTI_LINE.start
+        )
+        # Attempt multi-line comments first, in case of comment styles like
+        # Julia, where '#=' starts a multi-line comment and '#' starts a
+        # single-line comment (parse_comment does the same). An opener that is
+        # never closed falls back to the single-line reading.
+        if starts_multi:
+            for i, line in enumerate(lines):
+                if line.endswith(cls.MULTI_LINE.end):
+                    end = i
+                    break
+        if end is None and cls.can_handle_single():
             for i, line in enumerate(lines):
                 if (
                     cls.SINGLE_LINE_REGEXP
@@ -267,17 +279,8 @@ class CommentStyle:
                     end = i
                 else:
                     break
-        if (
-            end is None
-            and cls.can_handle_multi()
-            and text.startswith(cls.MULTI_LINE.start)
-        ):
-            for i, line in enumerate(lines):
-                end = i
-                if line.endswith(cls.MULTI_LINE.end):
-                    break
-            else:
-                raise CommentParseError("Comment block never delimits")
+        if end is None and starts_multi:
+            raise CommentParseError("Comment block never delimits")
 
         if end is not None:
             return "\n".join(lines[: end + 1])
